@@ -19,7 +19,7 @@
 From stdpp Require Import gmap gmultiset.
 From Coq Require Import QArith Qcanon.
 From GS Require Import Base.Bytes Base.LTS Model.Lexer Model.Series Model.MetricMap Model.Content Model.Pipeline.
-From GS Require Import Proofs.Pipeline Proofs.PipelineExplicit.
+From GS Require Import Proofs.Pipeline Proofs.PipelineExplicit Proofs.PipelineReported.
 Local Open Scope nat_scope.
 
 (* At every moment, whatever was parsed is exactly what has been flushed plus what the
@@ -81,6 +81,20 @@ Theorem C01_exact_at_quiescence_explicit :
         = list_to_set (dp_strval <$> samples_of MSet k (st_input s)).
 Proof. exact exact_at_quiescence_explicit. Qed.
 Print Assumptions C01_exact_at_quiescence_explicit.
+
+(* No series is lost, gauges included: under the hypotheses of C01_exact_at_quiescence every
+   parsed datapoint's series has been reported by at least one flush. *)
+Theorem C01_all_reported :
+  ∀ (c : config) (ls : list label) (s : state) (ls' : list label) (s' : state) (f : nat),
+    cfg_shards c ≠ 0 →
+    run (step c) (init c) ls = Some s →
+    st_inflight s = [] ∧ (∀ q, q ∈ st_queue s → q = []) →
+    run (step c) s ls' = Some s' →
+    (∃ pre post, ls' = pre ++ Tick f :: post ∧ Forall is_flush_label pre ∧ Forall is_shard_label post) →
+    st_flushing s' = Some (f, []) →
+    ∀ d, d ∈ st_input s → ∃ f' i m, (f', i, m) ∈ st_out s' ∧ holds m (dp_type d) (dp_key d).
+Proof. exact all_reported. Qed.
+Print Assumptions C01_all_reported.
 
 (* Every series held anywhere for shard i — by a parser for that shard, in its queue, in its
    aggregator, in a map it flushed — has bucket i. *)
